@@ -84,7 +84,7 @@ CHECKS = {
         rule=('cases = (code int32, text) with text from: table row x parameter {int64 range, negative, 0, huge, empty, abc, 1e3, arabic digit, spaces, +5, 0x10, %d}, '
               'all catalogued names, near misses of rows, mutated names, arbitrary strings with % verbs. Non-trivial: text non-empty and one of '
               '{row match, known name, unknown text}; distinct by hash of (code,text).'),
-        must_hit=['client:migrate-while-session-storage-fails', 'client:rpc_error-inside-gzip_packed', 'client:other-migrate-error-naming-a-configured-data-centre', 'concurrent:evaluations', 'row:param-int', 'row:param-absent', 'row:param-non-numeric', 'row:param-out-of-range', 'row:param-negative', 'known-name',
+        must_hit=['client:request-sent-on-by-the-data-centre-it-was-sent-to', 'client:migrate-while-session-storage-fails', 'client:rpc_error-inside-gzip_packed', 'client:other-migrate-error-naming-a-configured-data-centre', 'concurrent:evaluations', 'row:param-int', 'row:param-absent', 'row:param-non-numeric', 'row:param-out-of-range', 'row:param-negative', 'known-name',
                   'unknown-text', 'unknown-text-with-percent', 'client:errors', 'client:migrate', 'client:migrate-unconfigured', 'client:data-centre-known-to-another-client-only'] + ['row%02d' % i for i in range(15)],
         assumptions=['for a matching row whose parameter is not a decimal int the statement fixes only: no panic, Code kept; Message may be the text or the X form (accepted either way), "+5" likewise',
                      'the catalogue of documented descriptions is read from errors.go as data'],
@@ -307,7 +307,7 @@ CHECKS = {
         technique='scenario-based property testing (rapid) with tagged requests against a scripted reference server; directed yield-point schedules',
         rule=('case = rpc scenario on a resumed session: callers x tagged requests, answer order/grouping/gzip/errors, optional hold of one sender until another request arrived, GOMAXPROCS. '
               'Non-trivial: >=2 requests answered out of order, a container, a gzip-packed result or a vector result; distinct by hash of the scenario.'),
-        must_hit=['server-clock-after-2038', 'feat:gzip:flushed-in-between', 'feat:gzip:stored', 'feat:big-result', 'feat:big-result:gzip', 'feat:result-longer-than-1MiB', 'feat:older-msg_id-arrives-after-newer', 'session:keyed-in-this-process', 'feat:answered-out-of-order', 'feat:container', 'feat:gzip', 'feat:rpc-error', 'concurrent-callers', 'directed:answer-while-sender-in-send-path', 'feat:nested-container', 'feat:answers-to-requests-resent-after-salt-rotation', 'feat:repeated-result', 'feat:repeated-result-before-others-in-container', 'server-history:answers-after-reconnect', 'verdict:ok'] +
+        must_hit=['server-clock-after-2038', 'feat:gzip:flushed-in-between', 'feat:gzip:stored', 'feat:big-result', 'feat:big-result:gzip', 'feat:result-longer-than-1MiB', 'feat:older-msg_id-arrives-after-newer', 'session:keyed-in-this-process', 'feat:answered-out-of-order', 'feat:container', 'feat:gzip', 'feat:rpc-error', 'feat:same-error-text-under-another-code', 'concurrent-callers', 'directed:answer-while-sender-in-send-path', 'feat:nested-container', 'feat:answers-to-requests-resent-after-salt-rotation', 'feat:repeated-result', 'feat:repeated-result-before-others-in-container', 'server-history:answers-after-reconnect', 'verdict:ok'] +
                  ['feat:%s:%s' % (k, f) for k in ('object', 'bool', 'vecint', 'veclong', 'vecobj') for f in ('plain', 'container', 'gzip')],
         assumptions=['requests are made through MakeRequest / MakeRequestWithHintToDecoder with the hint the generated method of that function passes, followed by the same type assertion',
                      'a stall verdict needs a quiescent deadlocked state seen in two goroutine dumps; anything else after the patience is inconclusive',
